@@ -64,7 +64,8 @@ TxMuts     == {"txs.drop", "txs.add", "txs.swap", "txs.alter", "txs.garbage"}
 LcMetaMuts == {"lc.height-1", "lc.height+1", "lc.round+1", "lc.bid.hash", "lc.bid.phash", "lc.bid.ptotal"}
 LcSigMuts  == {"lc.sig1.absent", "lc.sig4.absent", "lc.sig1.nilflag", "lc.sig1.ts", "lc.sig1.addr-stranger",
                "lc.sig1.addr-validator", "lc.sig1.badsig", "lc.sig.swap12", "lc.sig1.nosig", "lc.sig1.flag0",
-               "lc.sigs.droplast", "lc.two-absent", "lc.sig34.absent", "lc.sig34.absent-retimed"}
+               "lc.sigs.droplast", "lc.two-absent", "lc.sig34.absent", "lc.sig34.absent-retimed",
+               "lc.sig34.nil-signed"}
 LcMuts     == LcMetaMuts \cup {"lc.nil", "lc.sigs.extra"} \cup (IF Initial THEN {} ELSE LcSigMuts)
 EvMuts     == IF Initial THEN {"ev.add"} ELSE {"ev.drop", "ev.alter", "ev.add", "ev.dup", "ev.malformed"}
 
@@ -73,8 +74,9 @@ Names == {n \in HeaderMuts \cup TxMuts \cup LcMuts \cup EvMuts : ~(Initial /\ n 
 Singles == {<<n, "no">> : n \in Names} \cup {<<n, "yes">> : n \in {x \in Names : Rehashable(x)}}
 
 SetSig(b, k, cs) == [b EXCEPT !.lc.sigs[k] = cs]
+NilSigned(cs) == IF cs.flag = FlagCommit THEN [cs EXCEPT !.flag = FlagNil, !.sig.bid = ZeroBid] ELSE cs
 (* a mutation that finds nothing to act on (possible only in pairs, e.g. after the commit was removed) is a no-op *)
-NeedSigs(n) == CASE n \in {"lc.sig4.absent", "lc.sig34.absent", "lc.sig34.absent-retimed"} -> 4
+NeedSigs(n) == CASE n \in {"lc.sig4.absent", "lc.sig34.absent", "lc.sig34.absent-retimed", "lc.sig34.nil-signed"} -> 4
                  [] n \in {"lc.two-absent", "lc.sig.swap12"} -> 2
                  [] n \in LcSigMuts -> 1
                  [] OTHER -> 0
@@ -128,6 +130,9 @@ Apply1(b, n) ==
     [] n = "lc.sig34.absent-retimed" ->
          LET b2 == SetSig(SetSig(b, 3, AbsentCS), 4, AbsentCS)
          IN [b2 EXCEPT !.h.time = IF b2.lc.present /\ S.lastVals # <<>> THEN MedianTime(b2.lc, S.lastVals) ELSE @]
+    \* validators 3 and 4 VALIDLY signed nil precommits (same times: the median stays): every signature verifies, but
+    \* only the votes FOR THE BLOCK count towards +2/3
+    [] n = "lc.sig34.nil-signed" -> SetSig(SetSig(b, 3, NilSigned(b.lc.sigs[3])), 4, NilSigned(b.lc.sigs[4]))
     [] n = "lc.sig1.nilflag"  -> [b EXCEPT !.lc.sigs[1].flag = FlagNil]
     [] n = "lc.sig1.ts"       -> [b EXCEPT !.lc.sigs[1].ts = @ + 1]
     [] n = "lc.sig1.addr-stranger"  -> [b EXCEPT !.lc.sigs[1].addr = 9]
